@@ -284,7 +284,7 @@ pub fn real_interrupt(cpu: &mut Cpu, v: u8) -> RealOutcome {
 pub fn model_interrupt(r: &mut Regs, mem: &mut Mem, v: u8) -> Step {
     use crate::refmodel::decode::Insn;
     use crate::refmodel::exec::{exception_entry, Cycles, I, UI};
-    let mut st = Step { insn: Insn::undef(), outcome: Outcome::Unjudged("?"), ccr_unjudged: 0, mem_unjudged: vec![], ea: None, reg_unjudged: 0, overlap: false, label: Some("interrupt entry") };
+    let mut st = Step { insn: Insn::undef(), outcome: Outcome::Unjudged("?"), ccr_unjudged: 0, mem_unjudged: vec![], ea: None, reg_unjudged: 0, overlap: false, odd_pc: false, label: Some("interrupt entry") };
     if r.ccr & I != 0 {
         // masked: nothing may change (the request stays pending)
         st.outcome = Outcome::Ok(Cycles::default());
@@ -369,7 +369,7 @@ impl Lock {
     fn setup(&mut self, c: &Case) {
         self.mem.wlog.clear();
         for (i, b) in c.code.iter().enumerate() {
-            let a = c.pc.wrapping_add(i as u32);
+            let a = (c.pc & !1).wrapping_add(i as u32);
             if self.mem.write8(a, *b) {
                 real_poke(&mut self.cpu, a, *b);
             }
@@ -492,6 +492,7 @@ impl Lock {
                     }
                 }
             }
+            (Outcome::Ok(_), RealOutcome::Err(_)) if step.odd_pc => {}
             (Outcome::Ok(_), RealOutcome::Err(e)) => diffs.push(Diff::RealErr(e.clone())),
             (Outcome::Err(_), RealOutcome::Ok(_)) => diffs.push(Diff::RealOk),
             _ => {}
@@ -721,6 +722,7 @@ impl Sess {
                     }
                 }
             }
+            (Outcome::Ok(_), RealOutcome::Err(_)) if step.odd_pc => {}
             (Outcome::Ok(_), RealOutcome::Err(e)) => diffs.push(Diff::RealErr(e.clone())),
             (Outcome::Err(_), RealOutcome::Ok(_)) => diffs.push(Diff::RealOk),
             _ => {}
